@@ -271,7 +271,8 @@ impl core::ops::Neg for Num {
             Self::Float(x) => Self::Float(-x),
             Self::Dec(n) => match n.strip_prefix('-') {
                 Some(pos) => Self::Dec(pos.to_string().into()),
-                None => Self::Dec(alloc::format!("-{n}").into()),
+                // a decimal literal may carry an explicit `+` sign
+                None => Self::Dec(alloc::format!("-{}", n.strip_prefix('+').unwrap_or(&n)).into()),
             },
         }
     }
